@@ -2,7 +2,6 @@ package p2pmux
 
 import (
 	"context"
-	"encoding/binary"
 	"sync"
 
 	"github.com/pkg/errors"
@@ -226,7 +225,8 @@ func (ms *muxedSwarm[A, C, Pub]) ParseAddr(data []byte) (A, error) {
 
 func (ms *muxedSwarm[A, C, Pub]) MTU() int {
 	m := ms.m.swarm.MTU()
-	n := binary.PutVarint(make([]byte, binary.MaxVarintLen64), int64(m))
+	// the overhead is the size of the header this channel's muxFunc prepends
+	n := p2p.VecSize(ms.m.muxFunc(ms.cid, nil))
 	return m - n
 }
 
